@@ -215,6 +215,13 @@ func dump(dir string) {
 		}
 		protos := map[string]any{}
 		records := map[string]any{}
+		order := map[string][]string{}
+		for _, ns := range env.Namespaces {
+			for _, td := range ns.TypeDefinitions {
+				order[ns.Name] = append(order[ns.Name], td.GetDefinitionMeta().Name)
+			}
+		}
+		res["order"] = order
 		for _, ns := range env.Namespaces {
 			for _, td := range ns.TypeDefinitions {
 				if rec, ok := td.(*dsl.RecordDefinition); ok {
